@@ -422,6 +422,148 @@ func (w *world) exec(r *hx.Run, op string) string {
 	return "bad-op"
 }
 
+// execHist runs the request `chist G K IV2 M`: G goroutines x K Next calls on the live object racing one goroutine that
+// keeps calling Release (slow store writes), every goroutine recording what it received in completion order; then the
+// object is abandoned between calls and a fresh object (interval IV2) hands out M numbers.  The recorded history is
+// appended to the request line (`… h <goroutine 0> <goroutine 1> … f <fresh>`, lists comma-separated, `-` = empty) and
+// judged by the Lean driver with the trace predicate of the C07_concurrent_* theorems (Hive/Model/SeqConc.lean,
+// histWhy); the implementation column is the constant `accept`.  Always the last request of a case.  On replay only
+// the fields before `h` are used: the scenario is executed again.
+func (w *world) execHist(r *hx.Run, op string) (string, string) {
+	f := strings.Fields(op)
+	spec := f
+	for i, t := range f {
+		if t == "h" {
+			spec = f[:i]
+
+			break
+		}
+	}
+	if len(spec) != 5 {
+		return op, "bad-op"
+	}
+	head := strings.Join(spec, " ")
+	if w.seq == nil {
+		return head, "noobj"
+	}
+	g, _ := strconv.Atoi(spec[1])
+	k, _ := strconv.Atoi(spec[2])
+	iv2, _ := strconv.ParseUint(spec[3], 10, 64)
+	m, _ := strconv.Atoi(spec[4])
+	seq := w.seq
+	w.cs.slowSet.Store(true)
+	perG := make([][]uint64, g)
+	errs := make([]int, g)
+	stop := make(chan struct{})
+	var rwg, nwg sync.WaitGroup
+	rwg.Add(1)
+	go func() {
+		defer rwg.Done()
+		for {
+			select {
+			case <-stop:
+				return
+			default:
+				_ = seq.Release()
+			}
+		}
+	}()
+	for i := 0; i < g; i++ {
+		nwg.Add(1)
+		go func(i int) {
+			defer nwg.Done()
+			for j := 0; j < k; j++ {
+				n, err := seq.Next()
+				if err != nil {
+					errs[i]++
+
+					continue
+				}
+				perG[i] = append(perG[i], n)
+			}
+		}(i)
+	}
+	done := make(chan struct{})
+	go func() { nwg.Wait(); close(stop); rwg.Wait(); close(done) }()
+	select {
+	case <-done:
+	case <-time.After(60 * time.Second):
+		r.Fail("progress", "concurrent Next/Release did not finish within 60 s", map[string]string{"oracle": "stuck", "after": "chist"})
+
+		return head, "stuck"
+	}
+	w.cs.slowSet.Store(false)
+	sig := func(o string) map[string]string { return map[string]string{"oracle": o, "after": "chist"} }
+	// independent oracle on the implementation
+	var all []uint64
+	for i, l := range perG {
+		if errs[i] != 0 {
+			r.Fail("error-faithful", "Next returned an error although no store call failed", sig("spurious-error"))
+		}
+		for j := 1; j < len(l); j++ {
+			if l[j] <= l[j-1] {
+				r.Fail("strictly-increasing", fmt.Sprintf("one caller got %d after %d (Next racing Release)", l[j], l[j-1]), sig("reuse"))
+			}
+		}
+		all = append(all, l...)
+	}
+	sort.Slice(all, func(i, j int) bool { return all[i] < all[j] })
+	for i := range all {
+		if i > 0 && all[i] == all[i-1] {
+			r.Fail("strictly-increasing", fmt.Sprintf("number %d handed out twice (Next racing Release)", all[i]), sig("reuse"))
+		} else if i > 0 && all[i] != all[i-1]+1 {
+			r.Fail("release-wastes-none", fmt.Sprintf("gap between %d and %d although no crash happened (Next racing Release)", all[i-1], all[i]), sig("waste-clean"))
+		}
+		if int64(all[i]) <= w.last {
+			r.Fail("strictly-increasing", fmt.Sprintf("number %d handed out although %d had been handed out before", all[i], w.last), sig("reuse"))
+		}
+	}
+	// abandon between calls and restart
+	oldIv := w.interval
+	w.seq = nil
+	var freshNums []uint64
+	fresh, err := kvstore.NewSequence(w.cs, key, iv2)
+	if err == nil {
+		for i := 0; i < m; i++ {
+			n, err := fresh.Next()
+			if err != nil {
+				r.Fail("error-faithful", "Next of the fresh object returned an error although no store call failed", sig("spurious-error"))
+
+				continue
+			}
+			if len(all) > 0 && n <= all[len(all)-1] {
+				r.Fail("strictly-increasing", fmt.Sprintf("fresh object after restart handed out %d although %d had been handed out", n, all[len(all)-1]), sig("reuse"))
+			}
+			if len(freshNums) > 0 && n != freshNums[len(freshNums)-1]+1 {
+				r.Fail("strictly-increasing", fmt.Sprintf("fresh object handed out %d after %d", n, freshNums[len(freshNums)-1]), sig("reuse"))
+			}
+			if len(freshNums) == 0 && len(all) > 0 && n > all[len(all)-1] && n-(all[len(all)-1]+1) > oldIv {
+				r.Fail("waste-bound", fmt.Sprintf("crash skipped %d numbers, interval of the abandoned object is %d", n-(all[len(all)-1]+1), oldIv), sig("waste"))
+			}
+			freshNums = append(freshNums, n)
+		}
+	}
+	csv := func(l []uint64) string {
+		if len(l) == 0 {
+			return "-"
+		}
+		p := make([]string, len(l))
+		for i, n := range l {
+			p[i] = strconv.FormatUint(n, 10)
+		}
+
+		return strings.Join(p, ",")
+	}
+	line := head + " h"
+	for _, l := range perG {
+		line += " " + csv(l)
+	}
+	line += " f " + csv(freshNums)
+	r.Count("chist:numbers")
+
+	return line, "accept"
+}
+
 func runCrashing(f func()) (crashed bool) {
 	defer func() {
 		if e := recover(); e != nil {
@@ -471,6 +613,8 @@ func genCase(rng *hx.Rng, n int) []string {
 	}
 	if rng.Chance(1, 12) { // concurrent Next vs Release: always the last request of a case
 		ops = append(ops, fmt.Sprintf("parrel %d %d", rng.Range(2, 4), rng.Range(20, 60)))
+	} else if rng.Chance(1, 10) { // recorded concurrent history, judged by the Lean trace predicate: also last
+		ops = append(ops, fmt.Sprintf("chist %d %d %d %d", rng.Range(2, 4), rng.Range(5, 40), hx.Pick(rng, intervals), rng.Range(0, 4)))
 	}
 
 	return ops
@@ -481,7 +625,12 @@ func runCase(r *hx.Run, sub uint64, ops []string) {
 	w := newWorld()
 	crashes, nums := 0, 0
 	for _, op := range ops {
-		ans := w.exec(r, op)
+		var ans string
+		if strings.HasPrefix(op, "chist") {
+			op, ans = w.execHist(r, op)
+		} else {
+			ans = w.exec(r, op)
+		}
 		r.Line(op, ans)
 		k := strings.Fields(op)[0]
 		if k == "crash" {
@@ -505,7 +654,7 @@ func runCase(r *hx.Run, sub uint64, ops []string) {
 
 func main() {
 	r := hx.Start()
-	r.Rule = "random histories of new/next/release/crash(idle|read|write|relwrite)/fnext(get|set)/frelease (injected store errors)/mark/par/parrel (Next racing Release, slow store writes) over intervals {1,2,3,5,2^32}; " +
+	r.Rule = "random histories of new/next/release/crash(idle|read|write|relwrite)/fnext(get|set)/frelease (injected store errors)/mark/par/parrel (Next racing Release, slow store writes)/chist (recorded concurrent history of Next racing Release + restart, judged by the Lean trace predicate of C07_concurrent_*) over intervals {1,2,3,5,2^32}; " +
 		"non-trivial = at least two restarts/crashes and two numbers handed out; distinct by sha256 of the op lines"
 	if lines := r.ReplayLines(); lines != nil {
 		runCase(r, 0, lines)
@@ -521,6 +670,9 @@ func main() {
 		{"new 3", "next", "next", "next", "fnext get", "next", "fnext set", "next", "release", "new 3", "next"},
 		{"new 5", "next", "frelease", "release", "new 2", "next"},
 		{"new 10", "next", "next", "parrel 3 40"},
+		{"new 5", "next", "next", "chist 3 30 2 3"},
+		{"new 1", "chist 4 20 3 2"},
+		{"new 3", "next", "release", "crash write", "new 4294967296", "next", "chist 2 40 1 4"},
 	}
 	for _, c := range corpus {
 		runCase(r, 0, c)
